@@ -122,7 +122,8 @@ pub fn exercise(tools: &Tools, sub: &str, x: &[u8], rank: u64, case: &dyn Fn() -
             guard!("signature_key_ids", p.signature_key_ids());
             // iteration over an uncompressed payload
             let comp = catch(|| m.get_payload_compressor()).ok().and_then(|r| r.ok());
-            if comp == Some(rpm::CompressionType::None) {
+            // (the vocabulary sweep's payloads are tiny: there the payload is iterated whatever the header says about its compression)
+            if comp == Some(rpm::CompressionType::None) || sub == "tag-vocabulary" {
                 guard!("files()", {
                     if let Ok(it) = p.files() {
                         let mut n = 0usize;
@@ -576,6 +577,56 @@ fn cpio_sweep(tools: Arc<Tools>) -> Sweep {
     })
 }
 
+/// Tags whose value selects a code path (compressor, payload format and flags, encoding, digest algorithms): every word of
+/// their vocabulary — also the words this build has no support for — over three kinds of payload bytes.
+fn vocabulary_sweep(tools: Arc<Tools>) -> Sweep {
+    let files = foreign::sample_files();
+    let order: Vec<usize> = (0..files.len()).collect();
+    let arch = foreign::newc_archive(&files, &order);
+    let gz = {
+        use std::io::Write;
+        let mut e = flate2::write::GzEncoder::new(vec![], flate2::Compression::new(1));
+        e.write_all(&arch).unwrap();
+        e.finish().unwrap()
+    };
+    let payloads: Vec<(&'static str, Vec<u8>)> = vec![("an uncompressed cpio archive", arch), ("a gzip stream", gz), ("bytes that are no archive", b"\x00\x01garbage garbage garbage".to_vec())];
+    let long = "z".repeat(300);
+    let mut values: Vec<(u32, &'static str, Option<Val>)> = vec![];
+    for w in ["gzip", "zstd", "xz", "bzip2", "lzma", "none", "", "lz4", "Gzip", "BZIP2", "zstd ", "bzip2\u{0}x", "gzip,xz", &long] {
+        values.push((1125, "PAYLOADCOMPRESSOR", Some(Val::str(w))));
+    }
+    values.push((1125, "PAYLOADCOMPRESSOR", None));
+    values.push((1125, "PAYLOADCOMPRESSOR", Some(Val::strs(&["gzip", "bzip2"]))));
+    values.push((1125, "PAYLOADCOMPRESSOR", Some(Val::Int32(vec![1]))));
+    for w in ["cpio", "", "drpm", "tar", "CPIO"] {
+        values.push((1124, "PAYLOADFORMAT", Some(Val::str(w))));
+    }
+    for w in ["9", "19", "T8", "L", "", "99999999999999999999", "-1", "9T"] {
+        values.push((1126, "PAYLOADFLAGS", Some(Val::str(w))));
+    }
+    for w in ["utf-8", "UTF-8", "latin1", "", "utf-16"] {
+        values.push((5062, "ENCODING", Some(Val::str(w))));
+    }
+    for a in [0u32, 1, 2, 3, 8, 9, 10, 11, 12, 14, 99, u32::MAX] {
+        values.push((5011, "FILEDIGESTALGO", Some(Val::Int32(vec![a]))));
+        values.push((5093, "PAYLOADDIGESTALGO", Some(Val::Int32(vec![a]))));
+    }
+    let n = (values.len() * payloads.len()) as u64;
+    Sweep::new("tag-vocabulary", format!("a hand-encoded package × one of {} values for a tag whose value selects a code path (compressor names incl. the ones this build has no support for, other spellings, several names, wrong types; payload format; payload flags; encoding; file and payload digest algorithm numbers) × payload bytes that are {{an uncompressed cpio archive, a gzip stream, no archive at all}}: every entry point, no panic / abort / hang", values.len()), n, move |i, acc| {
+        let (tag, tname, val) = &values[(i / 3) as usize];
+        let (pname, pbytes) = &payloads[(i % 3) as usize];
+        let mut parts = foreign::package("hand", &files, pbytes.clone(), None, false);
+        set(&mut parts.main, *tag, val.clone());
+        let parts = split(&with_digests_keep(&parts, &DigestPlan { md5: D::Correct, sha1: D::Correct, sha256: D::Correct, payload: D::Correct, algo: 8 }, get(&parts.main, 5092).cloned(), get(&parts.main, 5093).cloned()).0).expect("splits");
+        let x = parts.join().0;
+        let what = json!({"tag": tname, "value": format!("{:?}", val).chars().take(80).collect::<String>(), "payload_is": pname});
+        exercise(&tools, "tag-vocabulary", &x, i, &|| bytes_case(&x, what.clone()), acc);
+        if i % 13 == 0 {
+            acc.sample(i, || what.clone());
+        }
+    })
+}
+
 pub fn sweeps(ctx: &Ctx) -> Vec<Sweep> {
     let tools = Arc::new(Tools::new(ctx));
     let env = Env::new(&ctx.repo, "c04");
@@ -600,6 +651,7 @@ pub fn sweeps(ctx: &Ctx) -> Vec<Sweep> {
             v.push(two_dev_sweep(tools.clone(), name, bytes.clone()));
         }
     }
+    v.push(vocabulary_sweep(tools.clone()));
     v.push(cpio_sweep(tools));
     v
 }
